@@ -163,6 +163,7 @@ def generate(rng, tier):
         "second_op": rng.choice([None, None, "sum", "mean"]),
         # an earlier call on the same objects with other contents; the caller refills the buffers in place
         "prior": rng.random() < 0.2,
+        "later": rng.random() < 0.1,
         # (single-precision coordinates were tried and withdrawn: the front-end transforms and compares them in single precision,
         #  and what "inside the range" means within float32 rounding of an edge is not something the statement settles)
         "xdtype": xdtype,
@@ -702,6 +703,16 @@ def execute(case, stats):
                 V("values", label, {"effect": lay_ops[k], "when": label}, {"layer": k, "bin": list(b), "got": float(vals[b]), "want": float(exp[b])})
 
     objects = _LAST.pop("objects", None)
+    if case.get("later") and case["n"] > 1:
+        # the returned Plot is looked at only after a later histogram of the same shape (other data) was made
+        try:
+            call_frontend(dict(case, x=dict(case["x"], pts=list(reversed(case["x"]["pts"]))), prior=False, knob=None), lambda: Sim(T=1))
+        except HarnessError:
+            raise
+        except Exception:
+            pass
+        _LAST.pop("objects", None)
+        stats.inc("probe.plot_judged_after_a_later_histogram_of_the_same_shape")
     judge("T=1", p1, c1)
     ks_ = kernel(MODNAME, KATTR)[2]
     if case.get("knob") and ks_ is not None and ks_.knobs:
@@ -826,6 +837,8 @@ def reductions(case, viol):
         yield dict(case, second_op=None)
     if case.get("prior"):
         yield dict(case, prior=False)
+    if case.get("later"):
+        yield dict(case, later=False)
     if case.get("xdtype", "f8") != "f8":
         yield dict(case, xdtype="f8")
     # 4. non-finite entries -> finite
